@@ -74,6 +74,15 @@ struct Prog {
     /// value is the one to show)
     #[serde(default)]
     late_again: Option<i64>,
+    /// the innermost span of the thread is entered a second time while it is entered (and left
+    /// twice): one more enter / exit record pair
+    #[serde(default)]
+    reenter: bool,
+    /// (with panic_first) the event whose Debug impl panics is emitted inside a span that is
+    /// created and entered inside the catch_unwind closure: its guard and handle are dropped by
+    /// the unwinding, and the exit / close records that are due then have to be written
+    #[serde(default)]
+    panic_in_span: bool,
 }
 #[derive(Clone, Debug, Serialize, Deserialize, PartialEq)]
 struct Ev {
@@ -544,6 +553,28 @@ fn run_case(case: &Case) -> Outcome {
                 v.push(life("enter", i, i + 1));
             }
         }
+        let reenter = p.reenter && d > 0 && case.shared.is_none();
+        if reenter && span_events & 2 != 0 {
+            v.push(life("enter", d - 1, d));
+        }
+        if p.panic_first && p.panic_in_span && case.shared.is_none() {
+            let tmp = ("tmp", "a", vec![("t", "1".to_string(), serde_json::json!(1))]);
+            let mut with_tmp = scope_of(d);
+            with_tmp.push(tmp.clone());
+            let mk = |word: &str, inside: bool| Want { level: 3, ti: 0, id: word.to_string(), is_event: false, k: 0, s: String::new(), scope: if inside || !json { with_tmp.clone() } else { scope_of(d) }, own: Some("tmp") };
+            if span_events & 1 != 0 {
+                v.push(mk("new", false));
+            }
+            if span_events & 2 != 0 {
+                v.push(mk("enter", true));
+            }
+            if span_events & 4 != 0 {
+                v.push(mk("exit", false));
+            }
+            if span_events & 8 != 0 {
+                v.push(mk("close", false));
+            }
+        }
         let mut spans = spans;
         for (n, e) in p.events.iter().enumerate() {
             if let Some((at, which, val)) = p.late {
@@ -563,6 +594,10 @@ fn run_case(case: &Case) -> Outcome {
         }
         let scope_of = |n: usize| -> Vec<(&'static str, &'static str, Vec<(&'static str, String, serde_json::Value)>)> { spans[..n].iter().map(|s| (s.0, s.1, s.4.clone())).collect() };
         let life = |word: &str, i: usize, scope_n: usize| Want { level: spans[i].3, ti: spans[i].2, id: word.to_string(), is_event: false, k: 0, s: String::new(), scope: scope_of(scope_n), own: Some(spans[i].0) };
+        if reenter && span_events & 4 != 0 {
+            // the first of the two exits: the span is still entered afterwards
+            v.push(life("exit", d - 1, d));
+        }
         for i in (0..d).rev() {
             if span_events & 4 != 0 {
                 v.push(life("exit", i, if json { i } else { i + 1 }));
@@ -602,7 +637,15 @@ fn run_case(case: &Case) -> Outcome {
                     let _m = mid.as_ref().map(|s| s.enter());
                     let leaf = if depth >= 3 { Some(tracing::trace_span!(target: "c", "leaf", flag = p.flag, late = tracing::field::Empty)) } else { None };
                     let _l = leaf.as_ref().map(|s| s.enter());
-                    if p.panic_first {
+                    let _again = if p.reenter && shared.is_none() && depth > 0 { [&root, &mid, &leaf][depth as usize - 1].as_ref().map(|s| s.enter()) } else { None };
+                    if p.panic_first && p.panic_in_span && shared.is_none() {
+                        let r = std::panic::catch_unwind(|| {
+                            let tmp = tracing::info_span!(target: "a", "tmp", t = 1);
+                            let _g = tmp.enter();
+                            tracing::info!(target: "a", bad = ?Bomb, "m_bomb_")
+                        });
+                        assert!(r.is_err());
+                    } else if p.panic_first {
                         let r = std::panic::catch_unwind(|| tracing::info!(target: "a", bad = ?Bomb, "m_bomb_"));
                         assert!(r.is_err());
                     }
@@ -628,6 +671,7 @@ fn run_case(case: &Case) -> Outcome {
                         }
                         emit(e.level.clamp(1, 5), e.target, &format!("m_{t}_{n}_"), e.k, &e.s);
                     }
+                    drop(_again);
                     drop(_l);
                     drop(leaf);
                     drop(_m);
@@ -765,7 +809,7 @@ impl Property for C13 {
         let opts = (any::<bool>(), proptest::bool::weighted(0.8), any::<bool>(), any::<bool>(), any::<bool>(), any::<bool>(), proptest::bool::weighted(0.25), any::<bool>(), prop_oneof![3 => Just(0u8), 2 => 0u8..16])
             .prop_map(|(target, level, thread_ids, thread_names, file, line, ansi, time, span_events)| Opts { target, level, thread_ids, thread_names, file, line, ansi, time, span_events });
         let ev = (1u8..=5, 0u8..2, any::<i64>(), "[a-z0-9]{1,8}").prop_map(|(level, target, k, s)| Ev { level, target, k, s });
-        let prog = (0u8..4, any::<u64>(), "[a-z]{1,6}", any::<i64>(), any::<bool>(), proptest::bool::weighted(0.25), proptest::collection::vec(ev, 1..5), proptest::option::weighted(0.4, (0u8..8, 0u8..3, -5i64..100)), proptest::option::weighted(0.3, 100i64..200)).prop_map(|(depth, rid, who, n, flag, panic_first, events, late, late_again)| Prog { depth, rid, who, n, flag, panic_first, events, late, late_again });
+        let prog = (0u8..4, any::<u64>(), "[a-z]{1,6}", any::<i64>(), any::<bool>(), proptest::bool::weighted(0.25), proptest::collection::vec(ev, 1..5), proptest::option::weighted(0.4, (0u8..8, 0u8..3, -5i64..100)), proptest::option::weighted(0.3, 100i64..200), (proptest::bool::weighted(0.2), any::<bool>())).prop_map(|(depth, rid, who, n, flag, panic_first, events, late, late_again, (reenter, panic_in_span))| Prog { depth, rid, who, n, flag, panic_first, events, late, late_again, reenter, panic_in_span });
         let maxt = tier.pick(4usize, 8usize);
         (fmt_, opts, w_strategy(), proptest::collection::vec(prog, 1..=maxt), proptest::option::weighted(0.08, (0u8..8, 0u8..8, 0i64..50)), proptest::option::weighted(0.15, any::<u8>()), proptest::bool::weighted(0.12))
             .prop_map(|(fmt, mut opts, writer, threads, shared, short, mutex)| {
